@@ -168,7 +168,7 @@ def dedupe_keys(heap):
     return out
 
 
-RUN_TIMEOUT = 60
+RUN_TIMEOUT = 300
 MAX_TIMEOUTS = 3
 TIMEOUTS = [0]
 
